@@ -78,6 +78,7 @@ double from_bits(uint64_t b) { double d; memcpy(&d, &b, 8); return d; }
 bool all_numbers(const RV& v) { if (v.k != RV::Arr) return false; for (auto& e : v.arr) if (e.k != RV::Num) return false; return true; }
 
 static RV expand_raw(const RV& v) { RV o = v; if (v.k == RV::Raw) { RV p; if (S_parse((const uint8_t*)v.str.data(), v.str.size(), p)) return p; return o; } for (auto& e : o.arr) e = expand_raw(e); for (auto& e : o.obj) e.second = expand_raw(e.second); return o; }
+static bool has_object(const RV& v) { if (v.k == RV::Obj) return !v.obj.empty(); for (auto& e : v.arr) if (has_object(e)) return true; return false; }
 static bool has_array(const RV& v) { if (v.k == RV::Arr) return !v.arr.empty(); if (v.k == RV::Obj) for (auto& e : v.obj) if (has_array(e.second)) return true; return false; }
 struct XPrint : Engine {
     Mode mode = M_ROUND; GuardMap gm; bool verbose = false; std::string curdesc;
@@ -349,7 +350,7 @@ struct XPrint : Engine {
             }
             install_hooks(HK_DEFAULT);
         }
-        if (printable_tree && mode == M_PREALLOC) prealloc_sweep(t, base);
+        if (printable_tree && mode == M_PREALLOC) { prealloc_sweep(t, base); if (has_object(rv)) { cJSON* tc = build_tree_cs(rv); prealloc_sweep(tc, base); LIBV(cJSON_Delete(tc)); } }   // also the same tree with constant member names
         Walk w1 = walk(t);
         if (w0.ok && (!w1.ok || w1.text != w0.text)) V("tree-modified-by-print", "printing changed the tree");
         LIBV(cJSON_Delete(t));
